@@ -58,6 +58,12 @@ def setExtSlice (xs : List Val) (start stop : Option Int) (step : Nat) (vals : L
   if (extIndices xs start stop step).length ≠ vals.length then .error .value
   else .ok (((extIndices xs start stop step).zip vals).foldl (fun acc (p : Nat × Val) => setAt acc p.1 p.2) xs)
 
-def indexOf (xs : List Val) (v : Val) : Option Nat := xs.findIdx? (· == v)
+/-- Python's `==` between two items of a typed list as far as it differs from structural equality: the two float zeros are equal -/
+def pyEq (a b : Val) : Bool :=
+  match a, b with
+  | .flt x, .flt y => x == y || ((x == .negzero || x == .dy 0 0) && (y == .negzero || y == .dy 0 0))
+  | _, _ => a == b
+
+def indexOf (xs : List Val) (v : Val) : Option Nat := xs.findIdx? (fun x => pyEq x v)
 
 end Cinco.PyList
